@@ -959,6 +959,8 @@ def c06(chk):
 
 def c07(chk):
     quick = chk.tier == "quick"
+    # the design for any number of transactions and keys: test and publication in one critical section => first committer wins (TLAPS)
+    tlaps_proof(chk, "proofs/CommitProof.tla", guard=("Conflict(t) == \\E k \\in ws[t] : main[k] > bseq[t]", "Conflict(t) == \\E k \\in ws[t] : main[k] > bseq[t] + 1"))
     l2_stage(chk, "two_committers", dict(L2_BASE, WS1={1}, WS2={1}, L1="RR"))
     l2_stage(chk, "two_committers_2keys", dict(L2_BASE, WS1={1, 2}, WS2={2}, L1="RR"))
     l2_stage(chk, "committers_writer", dict(L2_BASE, WS1={1}, WS2={1}, L1="RR", WithW=True))
